@@ -88,13 +88,14 @@ def fresh_state(eng, t, kind='full', tag=''):
     return obj, st
 
 
-def invariant(st):
-    """labelled components; st holds z3 terms (pre- or post-state)"""
+def invariant(st, over=False):
+    """labelled components; st holds z3 terms (pre- or post-state).  over=True also admits the state after the 52nd card
+    (trick number 14, nothing on the table, every hand empty): a pre-state for "play is over: everything is refused"."""
     t, T, L, A = st['t'], st['T'], st['L'], st['A']
     out = {}
     out['contract well-formed'] = z3.And(1 <= st['b'], st['b'] <= 35, 1 <= st['vul'], st['vul'] <= 4,
                                          1 <= st['dcl'], st['dcl'] <= 4)
-    out['trick number 1..13, leader and turn are seats'] = z3.And(1 <= T, T <= 13, 1 <= L, L <= 4, 1 <= A, A <= 4)
+    out['trick number 1..13, leader and turn are seats'] = z3.And(1 <= T, T <= (14 if over and t == 0 else 13), 1 <= L, L <= 4, 1 <= A, A <= 4)
     out['turn = leader + cards on the table'] = A == (L - 1 + t) % 4 + 1
     out['table cards are cards'] = z3.And([z3.And(2 <= r, r <= 14, 1 <= s, s <= 4) for r, s in st['table']] or [True])
     H, U = st['hands'], st['used']
@@ -177,7 +178,7 @@ def unchanged(pre, post):
 # --------------------------------------------------------------------------
 # turning a model into a replayable play sequence (public API only)
 # --------------------------------------------------------------------------
-def synth_play(eng, neg, pre, card, seat, extra=None, max_trick=13, budget_s=240):
+def synth_play(eng, neg, pre, card, seat, extra=None, max_trick=13, budget_s=240, min_trick=1):
     """Counterexample to induction -> a deal and a sequence of plays (public API) that reaches the offending
     pre-state.  For a concrete trick number T0 = 1, 2, ... the earlier tricks are 4(T0-1) symbolic cards whose winners
     (reference rule) must produce the pre-state's leader and counts; every hand is an explicit strictly increasing
@@ -186,7 +187,7 @@ def synth_play(eng, neg, pre, card, seat, extra=None, max_trick=13, budget_s=240
     t0 = _t.time()
     t = pre['t']
     trump = suit_of_bid(pre['b'])
-    for T0 in range(1, max_trick + 1):
+    for T0 in range(min_trick, max_trick + 1):
         if _t.time() - t0 > budget_s:
             return None
         cons = [pre['T'] == T0]
@@ -217,16 +218,38 @@ def synth_play(eng, neg, pre, card, seat, extra=None, max_trick=13, budget_s=240
             cons += [hc[j] < hc[j + 1] for j in range(m - 1)]
             gone = (p - pre['L']) % 4 < t         # this seat has already played to the current trick
             for i in range(52):
-                alts = [hc[j] == i for j in range(m - 1)] + [z3.And(z3.Not(gone), hc[m - 1] == i)]
-                cons.append(pre['hands'][p].bits[i] == z3.Or(alts))
+                alts = [hc[j] == i for j in range(m - 1)] + ([z3.And(z3.Not(gone), hc[m - 1] == i)] if m else [])
+                cons.append(pre['hands'][p].bits[i] == (z3.Or(alts) if alts else z3.BoolVal(False)))
+        shapes = [[]]
+        if T0 == 14:
+            # a finished board: 52 free cards make a slow query; try two shapes of history first (every trick = the four
+            # cards of one rank in a chosen order: with a trump suit any position can win; for no-trump: twelve
+            # one-suit tricks of four neighbouring ranks in a chosen order, then the four aces), then the free form
+            eq_rank = [z3.And([r == k + 2 for r, _ in tr] + [z3.Distinct([s_ for _, s_ in tr])]) for k, tr in enumerate(tricks)]
+            one_suit = []
+            for k, tr in enumerate(tricks[:12]):
+                lo = 2 + 4 * (k % 3)
+                one_suit.append(z3.And([s_ == k // 3 + 1 for _, s_ in tr] + [z3.And(lo <= r, r <= lo + 3) for r, _ in tr] +
+                                       [z3.Distinct([r for r, _ in tr])]))
+            one_suit.append(z3.And([r == 14 for r, _ in tricks[12]] + [z3.Distinct([s_ for _, s_ in tricks[12]])]))
+            shapes = [eq_rank, one_suit, []]
+        r, mdl = z3.unsat, None
+        for shape in shapes:
+            eng.solver.push()
+            try:
+                eng.solver.set('timeout', 60000 if T0 < 14 else 120000)
+                eng.solver.add(neg, *cons, *shape)
+                r = eng.solver.check()
+                if r == z3.sat:
+                    mdl = eng.solver.model()
+                    break
+            finally:
+                eng.solver.pop()
+                eng.solver.set('timeout', eng.timeout_ms)
         eng.solver.push()
         try:
-            eng.solver.set('timeout', 60000)
-            eng.solver.add(neg, *cons)
-            r = eng.solver.check()
             if r != z3.sat:
                 continue
-            mdl = eng.solver.model()
             ev = lambda z: hx.mval(mdl, z)
             L0 = ev(pre['dcl']) % 4 + 1
             plays = []
@@ -264,15 +287,18 @@ def synth_play(eng, neg, pre, card, seat, extra=None, max_trick=13, budget_s=240
 # --------------------------------------------------------------------------
 # H1: one play from an arbitrary state
 # --------------------------------------------------------------------------
-def case_step(props, t, who='any'):
-    """who: 'turn' (seat == seat on turn) | 'other' (seat != seat on turn) - splits the work"""
+def case_step(props, t, who='any', over=False):
+    """who: 'turn' (seat == seat on turn) | 'other' (seat != seat on turn) - splits the work; over: the pre-state is the
+    one after the 52nd card (t == 0)"""
     from bridge_env import PlayingPhaseWithHands, Player
 
     def path(eng):
         eng.summarize.add(PlayingPhaseWithHands.calc_highest)
         obj, st = fresh_state(eng, t)
         eng.assume(set_axioms(st))
-        eng.assume(z3.And(list(invariant(st).values())))
+        eng.assume(z3.And(list(invariant(st, over).values())))
+        if over:
+            eng.assume(st['T'] == 14)
         cr, cs_, seat = z3.Int('card_rank'), z3.Int('card_suit'), z3.Int('seat')
         eng.assume(z3.And(2 <= cr, cr <= 14, 1 <= cs_, cs_ <= 4, 1 <= seat, seat <= 4))
         if who == 'turn':
@@ -287,12 +313,17 @@ def case_step(props, t, who='any'):
         ok = z3.And(seat == st['A'], held)
 
         def refine(eng, neg, m):
-            return synth_play(eng, neg, pre, (cr, cs_), seat, {'props': sorted(props)})
+            return synth_play(eng, neg, pre, (cr, cs_), seat, {'props': sorted(props)}, max_trick=14 if over else 13,
+                              min_trick=14 if over else 1)
         chk = []
 
         def add(tags, label, cond):
             for p in sorted(tags & props):
                 chk.append((f'{p}: {label}', cond))
+        # the public accessors are also read BEFORE the step (query - step - query): an accessor that caches or
+        # consumes what it returns would otherwise go unnoticed
+        acc = symx.Frame(eng, PlayingPhaseWithHands.play_card_by_player, {})
+        acc.getattr(obj.attrs['playing_history'], 'history')
         try:
             eng.call_function(PlayingPhaseWithHands.play_card_by_player, [obj, card, SEnum(Player, seat)], {})
         except symx.RaiseEx as e:
@@ -305,6 +336,11 @@ def case_step(props, t, who='any'):
                 add({'C05'}, 'refused play: ' + label, cond)
             return dict(outcome='refused', checks=chk, refine=refine)
         post = read_state(obj, st)
+        pub = acc.getattr(obj.attrs['playing_history'], 'history')
+        add({'C04'}, 'the public history accessor lists every recorded trick (also when it was read before the play)',
+            z3.And(zint(pub.base) + len(pub.app) == post['base'], z3.BoolVal(len(pub.app) == len(post['hist_app']) and
+                                                                             all(a is b for a, b in zip(pub.app, post['hist_app']))))
+            if isinstance(pub, symx.SLog) else z3.BoolVal(False))
         add({'C05'}, 'a play is accepted only from the seat on turn and of a card it holds', ok)
         A = pre['A']
         moved = []
@@ -550,9 +586,15 @@ def fresh_observer(eng, st, dummy_known):
     return o, obs
 
 
-def read_observer(o):
-    from bridge_env import Pair
+def read_observer(o, eng=None):
+    """with eng: the observer's own hand and its view of dummy are read through the public accessors"""
+    from bridge_env import ObservedPlayingPhase, Pair
     A = o.attrs
+    if eng is not None:
+        fr = symx.Frame(eng, ObservedPlayingPhase.play_card_by_player, {})
+        A = dict(A)
+        A['_hand'], A['_dummy_hand'] = fr.getattr(o, 'hand'), fr.getattr(o, 'dummy_hand')
+        fr.getattr(A['playing_history'], 'history')
     tc = A['_trick_cards']
     h = A['playing_history'].attrs['_history']
     return dict(L=zenum(A['leader']), A=zenum(A['active_player']), T=zint(A['trick_num']), t=len(tc),
@@ -568,7 +610,7 @@ def _th_fields(th):
                                  zenum(c.attrs['suit'] if isinstance(c, SObj) else c.suit)) for c in g('cards')]
 
 
-def case_observer(props, t, mode, turn=None):
+def case_observer(props, t, mode, turn=None, over=False):
     """mode: 'known' (observer is not dummy and has been shown dummy's cards) | 'opening' (trick 1, nothing played, dummy
     not yet disclosed; the protocol discloses it right after this play) | 'is_dummy' (the observer sits in dummy's seat:
     the bundled client never sets a dummy hand there)"""
@@ -579,7 +621,9 @@ def case_observer(props, t, mode, turn=None):
         eng.summarize.add(PlayingPhaseWithHands.calc_highest)
         F, st = fresh_state(eng, t)
         eng.assume(set_axioms(st))
-        eng.assume(z3.And(list(invariant(st).values())))
+        eng.assume(z3.And(list(invariant(st, over).values())))
+        if over:
+            eng.assume(st['T'] == 14)        # play is over: all 52 cards played, every hand empty
         O, obs = fresh_observer(eng, st, dummy_known)
         eng.assume(z3.And(1 <= obs, obs <= 4))
         if turn is not None:
@@ -593,7 +637,7 @@ def case_observer(props, t, mode, turn=None):
         cr, cs_, seat = z3.Int('card_rank'), z3.Int('card_suit'), z3.Int('seat')
         eng.assume(z3.And(2 <= cr, cr <= 14, 1 <= cs_, cs_ <= 4, 1 <= seat, seat <= 4))
         pre = snapshot(st)
-        preO = read_observer(O)
+        preO = read_observer(O, eng)
         preO['hand'], preO['used'] = preO['hand'].copy(), preO['used'].copy()
         preO['dummy_hand'] = preO['dummy_hand'].copy() if preO['dummy_hand'] is not None else None
         ci = cidx(cr, cs_)
@@ -601,7 +645,8 @@ def case_observer(props, t, mode, turn=None):
 
         def refine(eng, neg, m):
             return synth_play(eng, neg, pre, (cr, cs_), seat,
-                              lambda mm: {'props': sorted(props), 'kind': 'observer', 'observer': hx.mval(mm, obs), 'mode': mode})
+                              lambda mm: {'props': sorted(props), 'kind': 'observer', 'observer': hx.mval(mm, obs), 'mode': mode},
+                              max_trick=14 if over else 13, min_trick=14 if over else 1)
         chk = []
 
         def add(tags, label, cond):
@@ -621,7 +666,7 @@ def case_observer(props, t, mode, turn=None):
             if unknown_field(e.exc):
                 return dict(outcome=NA, checks=[], sample=str(e.exc))
             o_ok, o_exc = False, e.exc
-        postO = read_observer(O)
+        postO = read_observer(O, eng)
         in_hand = z3.Or([z3.And(ci == i, preO['hand'].bits[i]) for i in range(52)])
         in_dummy = z3.Or([z3.And(ci == i, preO['dummy_hand'].bits[i]) for i in range(52)]) if dummy_known else z3.BoolVal(False)
         o_should = z3.And(seat == st['A'],
@@ -648,7 +693,7 @@ def case_observer(props, t, mode, turn=None):
         if mode == 'opening':
             # protocol: dummy's cards are disclosed after the opening lead and before the next card
             eng.call_function(ObservedPlayingPhase.set_dummy_hand, [O, _pick(dummy, postF['hands'])], {})
-            postO = read_observer(O)
+            postO = read_observer(O, eng)
         rel = [postO['L'] == postF['L'], postO['A'] == postF['A'], postO['T'] == postF['T'], z3.BoolVal(postO['t'] == postF['t']),
                postO['ns'] == postF['ns'], postO['ew'] == postF['ew'], postO['base'] == postF['base'],
                postO['declarer'] == postF['declarer'], postO['dummy'] == postF['dummy'], postO['trump'] == postF['trump'],
